@@ -63,7 +63,9 @@ func cmdConcRace(args []string) error {
 		// a $domain bucket with several rules, and referrers on different sub-domains of that domain: the lookups share
 		// the bucket of the parent
 		lines = append(lines, "/k1$domain=example.org,script", "/k2$domain=example.org,script", "/k3$domain=example.org,script",
-			"/k1$domain=a.example.org,script", "/k2$domain=b.example.org,script", "/k3$domain=sub.example.org,script", "@@/k2$domain=b.example.org,script")
+			"/k1$domain=a.example.org,script", "/k2$domain=b.example.org,script", "/k3$domain=sub.example.org,script", "@@/k2$domain=b.example.org,script",
+			// ... and a rule filed under a domain and under its own sub-domain: one request meets it on two levels
+			"/k1$domain=example.org|sub.example.org,script")
 		var qs []*histQuery
 		for i := 0; i < 60; i++ {
 			qs = append(qs, rndHistQuery(rnd))
@@ -100,6 +102,24 @@ func cmdConcRace(args []string) error {
 		type bad struct{ q, got, want string }
 		bads := make([][]bad, g)
 		var wg sync.WaitGroup
+		// first a burst: every goroutine asks the same thing of the cold engine at the same moment (the rules it needs are
+		// materialised by several goroutines at once, each of which goes on to meet them again on the next domain level)
+		burst := &histQuery{kind: "net", host: "static.site.com", url: "http://static.site.com/k1/k2/k3/x.js", src: "https://sub.example.org/", typ: rules.TypeScript}
+		startBurst := make(chan struct{})
+		for w := 0; w < g; w++ {
+			wg.Add(1)
+			go func(w int) {
+				defer wg.Done()
+				<-startBurst
+				a, _, _, pv := eng.run(burst)
+				if pv != "" || a != want[burst.key()] {
+					bads[w] = append(bads[w], bad{burst.key(), a, want[burst.key()]})
+				}
+			}(w)
+		}
+		close(startBurst)
+		wg.Wait()
+		total += g
 		for w := 0; w < g; w++ {
 			wg.Add(1)
 			go func(w int) {
